@@ -152,6 +152,7 @@ Section Leader.
       destruct (Nat.eq_dec x id) as [->|Hx]; [rewrite Hid in Hr; congruence|].
       rewrite Hnd in Hr |- * by exact Hx. apply (hW11 _ _ _ I x Hr).
     - (* iW12 *) intros m Hm Hty. unfold nd. rewrite Hterm'. apply (hW12 _ _ _ I m Hm Hty).
+    - (* iW13 *) apply (iW13_ext c0 c1 s s' E); [reflexivity|exact (hW13 _ _ _ I)].
     - (* iK1 *) intros x t'. destruct (Nat.eq_dec t' t) as [->|Ht'].
       + rewrite HLLt. destruct (Nat.eq_dec x id) as [->|Hx]; [rewrite Hgat; lia|].
         rewrite Hgao by (left; exact Hx). pose proof (hK1 _ _ _ I x t). lia.
